@@ -34,9 +34,13 @@ var configs = []cfg{
 	{text: `SecRule ARGS "@pmFromFile words.txt" "id:1,phase:1,deny"`, files: map[string]string{"words.txt": "xyz\n"}},
 	{text: `SecRule ARGS "@rx abc.def" "id:1,phase:1,deny"`},
 	{text: "SecDataset names `\nxyz\n`\nSecRule ARGS_GET:a \"@pm names\" \"id:1,phase:1,deny\"\nSecRule ARGS_GET:b \"@pmFromDataset names\" \"id:2,phase:1,deny\""},
+	{text: `SecRule ARGS "@pm abc def" "id:1,phase:1,deny"`},
+	{text: "SecDataset phrases `\nabc def\n`\nSecRule ARGS \"@pmFromDataset phrases\" \"id:1,phase:1,deny\""},
+	{text: `SecRule ARGS "@validateSchema schemas/item.json" "id:1,phase:1,deny"`, files: map[string]string{"schemas/item.json": `{"type":"object","required":["id"]}`}},
+	{text: `SecRule ARGS "@validateSchema schemas/item.json" "id:1,phase:1,deny"`, files: map[string]string{"schemas/item.json": `{"type":"object","required":["sn"]}`}},
 }
 
-var probes = []string{"abc.def", "abcxdef", "abc", "xyz", "names", "x", "ABC.DEF"}
+var probes = []string{"abc.def", "abcxdef", "abc", "xyz", "names", "x", "ABC.DEF", "abc def", "def", `{"id":1}`, `{"sn":1}`, `{}`}
 
 type wafOut struct {
 	Cfg    int               `json:"cfg"`
